@@ -56,7 +56,7 @@ def run_vectors(n):
 
 def make_spec(c):
     n, strat = c["n"], c["strat"]
-    cols = list(c.get("cols") or ["s", "i", "s"])
+    cols = list(c.get("cols") or ["s", "ni", "s"])
     spec = {"n": n, "cols": cols, "title": c.get("title", 0), "header": c.get("header", "explicit"), "footnote": c.get("footnote"), "source": c.get("source"),
             "page": {"nrow": c["nrow"]}}
     for k in ("page_title", "page_footnote", "page_source"):
@@ -221,7 +221,7 @@ def plan(run):
             dev.append(dict(a, footnote=fn, source=src))
         for pt, pf, ps in itertools.product(("first", "last", "all"), repeat=3):
             dev.append(dict(a, footnote="table", source="para", title=1, page_title=pt, page_footnote=pf, page_source=ps))
-        for cols in (["p", "i"], ["s", "f", "m"], ["m", "z", "s"], ["s", "i", "f", "p", "m"], ["s"]):
+        for cols in (["p", "i"], ["s", "f", "m"], ["m", "z", "s"], ["s", "i", "f", "p", "m"], ["s"], ["s", "ni", "nf"], ["s", "nf", "z", "ni"]):
             dev.append(dict(a, cols=cols))
         dev.append(dict(a, convert_off=True))
         dev.append(dict(a, convert_off=True, cols=["x", "i", "x"]))
